@@ -39,6 +39,11 @@ def quoter_outputs(prog):
             v = strip_refs(qb.expr_operand(t["args"][1]))
             if is_const(v, "char"):
                 out.add(const_val(v))
+    # a character chosen by a `match` and pushed behind it (`part.push(match ch { '\'' => '‘', … })`): the constants the arms assign
+    for (i, j, st) in qb.stmts():
+        if st["k"] == "assign" and st["rv"]["k"] == "use" and st["rv"]["op"]["k"] == "const" and st["rv"]["op"].get("char") is not None \
+                and qb.locals[st["place"]["l"]]["ty"] == "char" and not st["place"]["p"]:
+            out.add(st["rv"]["op"]["char"])
     # text the quoter puts in through string-level calls (`part.replace("--", "—")`, push_str of a literal)
     for (bb, t) in qb.calls():
         n_ = callee_name(t)
@@ -50,8 +55,7 @@ def quoter_outputs(prog):
                 elif is_const(v, "char"):
                     out.add(const_val(v))
     # characters handed to a private character-map helper (`curve(part, '‘', '“')`), in the quoter or in a closure of it
-    for k_ in [q] + list(prog.closures_of(q)):
-        kb_ = qb if k_ == q else prog.body(k_)
+    for kb_ in [qb, prog.body(q)] + [prog.body(k_) for k_ in prog.closures_of(q)]:
         for (bb, t) in kb_.calls():
             if callee_name(t) not in prog.fns:
                 continue
@@ -63,6 +67,16 @@ def quoter_outputs(prog):
                     x_ = strip_refs(x_)
                     if is_const(x_, "char"):
                         out.add(const_val(x_))
+                    # … or a character function handed to it (`curl(part, opening_quote)`): what its arms answer with
+                    fk_ = None
+                    if x_.k == "const" and isinstance(x_.a[0], tuple) and x_.a[0][0] == "fn":
+                        fk_ = x_.a[0][1]
+                    elif x_.k == "agg" and str(x_.a[0]).startswith("closure:"):
+                        fk_ = x_.a[0][8:]
+                    if fk_ in prog.fns:
+                        ft_ = char_fn_table(prog, fk_)
+                        if ft_ is not None:
+                            out.update(v_[1] for v_ in ft_[0].values() if v_[0] == "const")
     for ck in prog.closures_of(q) + [c for g in (qb.fn.get("inlined") or []) for c in prog.closures_of(g)]:
         cb = prog.body(ck)
         if cb.locals[0]["ty"] != "char":
@@ -110,6 +124,50 @@ def _chars_arg(b, d, depth=0):
                         if r:
                             return r
     return None
+
+
+def char_fn_table(prog, fk):
+    """A `fn(char) -> char` (or a closure of that shape, its captures read at its creation site) as a table: ({code point: ('const', c) |
+    ('param', i) | ('other', …)}, every other character kept?); None when it is not a match on its argument."""
+    from engine.analyses import sym_paths, PathLimit, subst_upvars
+    f = prog.fns.get(fk)
+    if f is None:
+        return None
+    cb = prog.body(fk)
+    p = 2 if f.get("kind") == "Closure" else 1
+    if cb.arg_count != p or cb.locals[p]["ty"] != "char" or cb.locals[0]["ty"] != "char":
+        return None
+    try:
+        paths = sym_paths(cb, 0, 64)
+    except PathLimit:
+        return None
+    table = {}
+    for path, env, conds in paths:
+        sel = None
+        for (dd, vals, allv, ty, bb) in conds:
+            dd = strip_refs(dd)
+            if not (dd.k == "arg" and dd.a[0] == p):
+                return None
+            sel = vals
+        r_ = env.get(0)
+        if r_ is None:
+            return None
+        r_ = strip_refs(peel_conv(r_))
+        if r_.k == "arg" and r_.a[0] == p:
+            v = ("same",)
+        elif is_const(r_, "char"):
+            v = ("const", const_val(r_))
+        elif f.get("kind") == "Closure":
+            x_ = strip_refs(peel_conv(subst_upvars(prog, fk, r_)))
+            v = ("param", x_.a[0]) if x_.k == "arg" else ("other", repr(x_)[:80])
+        else:
+            v = ("other", repr(r_)[:80])
+        if sel is None or sel == "otherwise":
+            table["otherwise"] = v
+        else:
+            for x_ in sel:
+                table[x_] = v
+    return {k: v for k, v in table.items() if k != "otherwise"}, table.get("otherwise") == ("same",)
 
 
 def charmap_helper(prog, hk):
@@ -178,6 +236,24 @@ def charmap_helper(prog, hk):
         if len(set(other_pushes)) != n_in_match:
             return None                     # something else is written into the rebuilt text
         return src, {k: v for k, v in table.items() if k != "otherwise"}, table.get("otherwise") == ("same",)
+    # (iii) a loop that pushes `f(ch)` for a function handed in (`fn curl(part: &str, curved: impl Fn(char) -> char)`): the table is f's
+    pushes = [(bb, tt) for (bb, tt) in hb.calls() if callee_name(tt).endswith("String::push")]
+    if len(pushes) == 1 and hb.loops():
+        bb, tt = pushes[0]
+        val = strip_refs(peel_conv(hb.expr_operand(tt["args"][1])))
+        dest = _ref_target_local(hb, tt["args"][0])
+        returned = set()
+        for d_ in hb.defs.get(0, []):
+            if d_[2] == "assign":
+                returned |= _moved_locals(hb, d_[3]["rv"])
+        if val.k == "call" and val.a[0].endswith(("Fn<Args>>::call", "FnMut<Args>>::call_mut", "FnOnce<Args>>::call_once", "ops::Fn::call", "ops::FnMut::call_mut",
+                                                  "ops::FnOnce::call_once")) and len(val.a[1]) == 2 \
+                and strip_refs(val.a[1][0]).k == "arg" and dest in returned:
+            tup = strip_refs(val.a[1][1])
+            if tup.k == "agg" and tup.a[0] == "tuple" and len(tup.a[1]) == 1:
+                src = _chars_arg(hb, tup.a[1][0])
+                if src is not None and _walks_every_char(hb, tup.a[1][0]):
+                    return src, {"@fn": strip_refs(val.a[1][0]).a[0]}, True
     # (ii) text.chars().map(|ch| …).collect()
     ret = strip_refs(peel_conv(hb.expr_local(0)))
     if ret.k == "call" and ret.a[0].endswith("::collect") and ret.a[1]:
@@ -242,6 +318,17 @@ def helper_call_map(prog, body, e, part_of):
         actual = {i + 1: a for i, a in enumerate(e.a[1])}
     if src not in actual:
         return None
+    if "@fn" in table:
+        fa = strip_refs(peel_conv(actual.get(table["@fn"]))) if table["@fn"] in actual else None
+        fk = None
+        if fa is not None and fa.k == "const" and isinstance(fa.a[0], tuple) and fa.a[0][0] == "fn":
+            fk = fa.a[0][1]
+        elif fa is not None and fa.k == "agg" and str(fa.a[0]).startswith("closure:"):
+            fk = fa.a[0][8:]
+        ft = char_fn_table(prog, fk) if fk in prog.fns else None
+        if ft is None:
+            return None
+        table, keeps = ft
     out = {}
     for cp, v in table.items():
         if v[0] == "const":
@@ -402,6 +489,13 @@ def run(ctx):
             d = strip_refs(qb.expr_operand(t["discr"]))
             okd = (d.k == "call" and d.a[0].endswith("str>::is_empty") and strip_refs(d.a[1][0]).k == "call"
                    and acc.get(strip_refs(d.a[1][0]).a[0]) == "word")
+            if not okd and d.k == "call" and d.a[0].endswith("str>::is_empty") and len(d.a[1]) == 1:
+                # the word part read as the field itself (`splitted.word.is_empty()`)
+                w_ = strip_refs(peel_conv(d.a[1][0]))
+                while w_.k == "call" and w_.a[0].endswith("::deref") and len(w_.a[1]) == 1:
+                    w_ = strip_refs(w_.a[1][0])
+                r_w, f_w = apath(w_)
+                okd = r_w.k == "arg" and r_w.a[0] == 1 and tuple(f_w) == ("word",)
             byp_vals = [i[0] for i in info if i[3]]
             pol_true = byp_vals == ["otherwise"] or byp_vals == [(1,)]
             key = "bypass@%s" % ("word-empty" if okd else repr(d)[:60])
@@ -434,10 +528,12 @@ def run(ctx):
             ch = chain(qb, tgt)
             pushes = []
             pushes_ops = []
-            for cb in ch:
+            for k_c, cb in enumerate(ch):
                 tt = qb.blocks[cb]["term"]
                 if tt["k"] == "call" and callee_name(tt).endswith("String::push"):
-                    pushes.append((strip_refs(qb.expr_operand(tt["args"][0])), strip_refs(qb.expr_operand(tt["args"][1]))))
+                    # the pushed value as this arm computes it (`part.push(match ch { '\'' => '‘', … })`: one push behind the match)
+                    env_c = qb.eval_path(ch[:k_c + 1], upto=(cb, len(qb.blocks[cb]["stmts"])))
+                    pushes.append((strip_refs(qb.expr_operand(tt["args"][0])), strip_refs(qb.expr_operand(tt["args"][1], 0, env_c))))
                     pushes_ops.append(tt["args"][0])
                     break
                 if tt["k"] == "switch":
@@ -527,17 +623,19 @@ def run(ctx):
                 elif fname:
                     maps[-(idx_ + 1)] = (None, fname, {}, False)
     else:
-        for fname, blks in sorted(wblocks.items()):
+        qb0 = prog.body(q)          # the quoter as written: a helper the spliced view has dissolved into the quoter is still a call here
+        for fname in sorted(wblocks):
             if fname in have_:
                 continue
-            for (i, j, st) in qb.stmts():
-                if not (i in blks and st["k"] == "assign" and st["place"]["l"] == 1 and st["place"]["p"][0].get("n") == fname):
+            for (i, j, st) in qb0.stmts():
+                if not (st["k"] == "assign" and st["place"]["l"] == 1 and st["place"]["p"] and isinstance(st["place"]["p"][0], dict)
+                        and st["place"]["p"][0].get("n") == fname):
                     continue
-                for l_ in sorted(_moved_locals(qb, st["rv"])):
-                    for d_ in qb.defs.get(l_, []):
+                for l_ in sorted(_moved_locals(qb0, st["rv"])):
+                    for d_ in qb0.defs.get(l_, []):
                         if d_[2] != "call":
                             continue
-                        e_ = E("call", callee_name(d_[3]), tuple(qb.expr_operand(a_) for a_ in d_[3]["args"]), d_[0], t=d_[3])
+                        e_ = E("call", callee_name(d_[3]), tuple(qb0.expr_operand(a_) for a_ in d_[3]["args"]), d_[0], t=d_[3])
 
                         def part_of1(x_):
                             x_ = strip_refs(peel_conv(x_))
@@ -547,10 +645,10 @@ def run(ctx):
                                 return acc[x_.a[0]]
                             r__, f__ = apath(x_)
                             return f__[-1] if f__ else None
-                        hm = helper_call_map(prog, qb, e_, part_of1)
+                        hm = helper_call_map(prog, qb0, e_, part_of1)
                         if hm is not None:
                             src_, tb_ = _as_table(hm)
-                            maps[d_[0]] = (src_, fname, tb_, True)
+                            maps[min(d_[0], len(qb.blocks) - 1)] = (src_, fname, tb_, True)
     seen_fields = set()
     for s, (it_src, field, table, okshape) in sorted(maps.items()):
         key = "map:%s" % (field or "bb%d" % s)
